@@ -336,6 +336,14 @@ func (s *Service) accountPathsToVerificationRegexes(paths []string) []*regexp.Re
 			parts = append(parts, ".*")
 		}
 		parts[1] = strings.TrimPrefix(parts[1], "^")
+		// Alternation binds more loosely than concatenation, so group a part that uses it
+		// to keep the anchors and the wallet/account separator applying to every alternative.
+		if strings.Contains(parts[0], "|") {
+			parts[0] = fmt.Sprintf("(?:%s)", strings.TrimPrefix(parts[0], "^"))
+		}
+		if strings.Contains(parts[1], "|") {
+			parts[1] = fmt.Sprintf("(?:%s)", strings.TrimSuffix(parts[1], "$"))
+		}
 		var specifier string
 		if strings.HasSuffix(parts[1], "$") {
 			specifier = fmt.Sprintf("^%s/%s", parts[0], parts[1])
